@@ -84,6 +84,22 @@ func runCheck(id, tier string, rest []string) int {
 
 	js := plan.Jobs(tier)
 	total := vk.NewResult("driver")
+	needBin := false
+	for _, j := range js {
+		if strings.Contains(j.Extra, "{BIN}") {
+			needBin = true
+		}
+	}
+	if needBin {
+		bin, err := buildJiva(scratch)
+		if err != nil {
+			fmt.Fprintln(os.Stderr, "BUILD-FAILED: the jiva binary does not build with the verif tag:", err)
+			return 3
+		}
+		for i := range js {
+			js[i].Extra = strings.ReplaceAll(js[i].Extra, "{BIN}", bin)
+		}
+	}
 	var mu sync.Mutex
 	sem := make(chan struct{}, 16)
 	var wg sync.WaitGroup
@@ -195,6 +211,23 @@ func runCheck(id, tier string, rest []string) int {
 		return 2
 	}
 	return exit
+}
+
+// buildJiva compiles the real jiva binary from the tree under check.
+func buildJiva(scratch string) (string, error) {
+	repo := os.Getenv("VERIF_ALT_REPO")
+	if repo == "" {
+		repo = "/repo"
+	}
+	bin := filepath.Join(scratch, "jiva")
+	cmd := exec.Command("go", "build", "-tags", "verif", "-o", bin, ".")
+	cmd.Dir = repo
+	cmd.Env = append(os.Environ(), "GOFLAGS=-mod=mod", "GOPROXY=off", "GOSUMDB=off", "GOTOOLCHAIN=local", "CGO_ENABLED=0")
+	out, err := cmd.CombinedOutput()
+	if err != nil {
+		return "", fmt.Errorf("%v: %s", err, out)
+	}
+	return bin, nil
 }
 
 func keys(m map[string]bool) []string {
